@@ -808,7 +808,8 @@ func (in *Interp) apply(fn *Closure, args []Value, caller *Frame) Value {
 	}
 	outer := fn.Env
 	// a recursive call of the function currently executing sees the caller's frame (issue #47)
-	if caller.Fn != nil && caller.Fn.Text == fn.Text {
+	// (the same function: same text and same definition frame - two closures made by one factory are two functions)
+	if caller.Fn != nil && caller.Fn.Text == fn.Text && caller.Fn.Env == fn.Env {
 		outer = caller
 	}
 	fr := &Frame{Vars: map[string]Value{}, Outer: outer, Fn: fn}
